@@ -46,6 +46,8 @@ def main(argv):
     ctx = core.Ctx(prop, tier, int(seed), int(shard), int(nshards))
     ctx.deadline = time.time() + timeout * 0.8
     ctx.checkpoint_prefix = out_prefix
+    if sys.flags.optimize:
+        ctx.count("shards-under-python-O")
     try:
         mod.run(ctx)
     except Exception as ex:  # harness failure: inconclusive, never green
